@@ -146,13 +146,29 @@ class NameParts:
                 # Odd number: need to escape one.
                 return string + "\\"
 
-        first = " ".join(self.first) if self.first else None
-        von = " ".join(self.von) if self.von else None
-        last = " ".join(self.last) if self.last else None
-        jr = " ".join(self.jr) if self.jr else None
+        def join_words(words: List[str]) -> str:
+            """Join words by blanks; a word "and" is tied to the previous one,
+            as " and " would otherwise separate the name into two persons."""
+            joined = ""
+            for word in words:
+                if joined:
+                    joined += "~" if word.lower() == "and" else " "
+                joined += word
+            return joined
 
-        von_last = " ".join(name for name in [von, last] if name)
-        return ", ".join(escape_last_slash(name) for name in [von_last, jr, first] if name)
+        von_last = join_words(list(self.von or []) + list(self.last or []))
+        jr = join_words(self.jr) if self.jr else None
+        first = join_words(self.first) if self.first else None
+
+        merged = ""
+        for name in [von_last, jr, first]:
+            if not name:
+                continue
+            if merged:
+                # (the same holds for a word "and" at the start of a comma-separated part)
+                merged += ",~" if name.lower().split("~")[0].split(" ")[0] == "and" else ", "
+            merged += escape_last_slash(name)
+        return merged
 
 
 class SplitNameParts(_NameTransformerMiddleware):
